@@ -52,7 +52,7 @@ impl Distribution for DiscreteUniform {
 
 impl Distribution1D for DiscreteUniform {
     fn update(&mut self, params: &[f64]) {
-        self.set_lower(params[0] as i64).set_upper(params[1] as i64);
+        *self = Self::new(params[0] as i64, params[1] as i64);
     }
 }
 
